@@ -434,31 +434,38 @@ func c19R4(c *Ctx) {
 	for k, ok := range need {
 		c.Check(ok, "C19.R4", "limit "+k+" is clamped at zero", p.Pos(fn.Decl), fn.Key(), k+": max(x, 0)", "not clamped")
 	}
-	// member limit definition and trunk gate
-	okDef, okGate := false, false
+	// member limit: total − ordinary with trunk support, zero without — stated as facts at the
+	// point where the limits are assembled, whatever order the code computes them in
+	var memberKV *ast.KeyValueExpr
 	ast.Inspect(fn.Decl.Body, func(nd ast.Node) bool {
-		switch t := nd.(type) {
-		case *ast.AssignStmt:
-			if len(t.Lhs) == 1 && exprString(t.Lhs[0]) == "memberAdapterLimit" {
-				s := strings.ReplaceAll(exprString(t.Rhs[0]), " ", "")
-				if strings.HasSuffix(s, ".EniTotalQuantity-instanceTypeInfo.EniQuantity") || (strings.Contains(s, ".EniTotalQuantity-") && strings.HasSuffix(s, ".EniQuantity")) {
-					okDef = true
-				}
-			}
-		case *ast.IfStmt:
-			if strings.Contains(exprString(t.Cond), "!") && strings.Contains(exprString(t.Cond), ".EniTrunkSupported") {
-				for _, s := range t.Body.List {
-					if as, ok := s.(*ast.AssignStmt); ok && exprString(as.Lhs[0]) == "memberAdapterLimit" {
-						if v, isC := constInt(info, as.Rhs[0]); isC && v == 0 {
-							okGate = true
-						}
-					}
-				}
-			}
+		if kv, ok := nd.(*ast.KeyValueExpr); ok && exprString(kv.Key) == "MemberAdapterLimit" {
+			memberKV = kv
 		}
 		return true
 	})
-	c.Check(okDef && okGate, "C19.R4", "member-interface limit = total − ordinary, zero without trunk support", p.Pos(fn.Decl), fn.Key(), "memberAdapterLimit := EniTotalQuantity − EniQuantity; if !EniTrunkSupported { memberAdapterLimit = 0 }", fmt.Sprintf("definition=%v gate=%v", okDef, okGate))
+	if memberKV == nil {
+		c.Bad("C19.R4", "member-interface limit = total − ordinary, zero without trunk support", p.Pos(fn.Decl), fn.Key(), "Limits{MemberAdapterLimit: …}", "field not set")
+	} else {
+		val := memberKV.Value
+		if mc, ok := isBuiltinCall(info, val, "max"); ok && len(mc.Args) == 2 {
+			val = mc.Args[0]
+		}
+		v := exprString(val)
+		// the instance-type record: the expression whose EniTrunkSupported field the function reads
+		rec := ""
+		ast.Inspect(fn.Decl.Body, func(nd ast.Node) bool {
+			if sel, ok := nd.(*ast.SelectorExpr); ok && sel.Sel.Name == "EniTrunkSupported" && rec == "" {
+				rec = exprString(sel.X)
+			}
+			return true
+		})
+		if rec == "" {
+			c.Bad("C19.R4", "member-interface limit = total − ordinary, zero without trunk support", p.Pos(memberKV), fn.Key(), "the trunk capability gates the member limit", "EniTrunkSupported is never read")
+		} else {
+			c.Require("C19.R4", "member-interface limit is zero without trunk support", fn, memberKV, rec+".EniTrunkSupported || "+v+" == 0", nil)
+			c.Require("C19.R4", "member-interface limit = total − ordinary with trunk support", fn, memberKV, "!"+rec+".EniTrunkSupported || "+v+" == "+rec+".EniTotalQuantity - "+rec+".EniQuantity", nil)
+		}
+	}
 	// ERDMARes ≤ ERdmaAdapters: every non-zero return is min(k, l.ERdmaAdapters)
 	er := p.Func(clientPkg, "Limits.ERDMARes")
 	if er == nil {
